@@ -84,6 +84,16 @@ type cllCS struct {
 	Mem trMem      `json:"mem"`
 }
 
+// cllSafeAbstractBR: the BatchRelease as the Rollout controller reads it; when the Rollout itself is gone (the
+// BatchRelease outlived it) the comparison fields that need the Rollout's strategy are taken from an empty canary strategy
+func cllSafeAbstractBR(br *v1beta1.BatchRelease, ro *v1beta1.Rollout) *rsBR {
+	if ro.Spec.Strategy.Canary == nil && ro.Spec.Strategy.BlueGreen == nil {
+		ro = ro.DeepCopy()
+		ro.Spec.Strategy.Canary = &v1beta1.CanaryStrategy{}
+	}
+	return rsAbstractBR(br, ro)
+}
+
 func cllShort(rev string) string { return rev[strings.LastIndex(rev, "-")+1:] }
 
 // cllJoint abstracts the live fake cluster into the joint state.
@@ -238,6 +248,10 @@ func cllNewWalk(c *Ctx, sc clScenario) *cllWalk {
 // do performs one transition and emits it.
 func (w *cllWalk) do(label string) {
 	s := w.s
+	if !w.quiet {
+		// marker of the transition about to run: if the process dies in it, the check names this input
+		w.c.Begin("cstep", J{"scenario": w.sc, "hist": append([]string{}, w.hist...), "label": label, "fwd": w.fwd})
+	}
 	pre := s.cllJoint()
 	emitLabel := label
 	switch {
@@ -344,6 +358,7 @@ func (w *cllWalk) trace() {
 	if w.quiet {
 		return
 	}
+	w.c.Done(0)
 	w.c.EmitAs("closedloop", "trace", J{"scenario": w.sc, "labels": w.hist, "states": w.states, "fwd": w.fwds}, nil)
 }
 
